@@ -1106,7 +1106,7 @@ class Qobj:
             self.data = _data.mul(self.data, 1 / norm_)
             self._isherm = self._isherm if norm_.imag == 0 else None
             self._isunitary = (self._isunitary
-                               if abs(norm_) - 1 < settings.core['atol']
+                               if abs(abs(norm_) - 1) < settings.core['atol']
                                else None)
             out = self
         else:
